@@ -81,6 +81,18 @@ pub fn min_cases(kind: &'static str, tier: &str, rng: &mut Rng, rep: &mut Report
         let s = gen::clean_seq(rng, 66_000, gen::Flavor::Uniform);
         cases.push(Case::new(kind, &[25.min(wmax), 11], &s, "long-clean"));
     }
+    // windows holding more than 2^16 m-mers (the CLI's whole-record mode reaches this on any contig): buffer capacities,
+    // 16-bit positions; once with the window as long as the record, once shorter so that it slides, once with an N inside
+    if wmax >= 200 {
+        let m = 10u64;
+        let len = rng.range(69_000, 71_000) as usize;
+        let s = gen::clean_seq(rng, len, gen::Flavor::Uniform);
+        cases.push(Case::new(kind, &[len as u64, m], &s, "huge-window"));
+        cases.push(Case::new(kind, &[65_536 + m + rng.range(0, 40), m], &s, "huge-window"));
+        let mut t = s.clone();
+        t[len - 1500] = b'N';
+        cases.push(Case::new(kind, &[65_536 + m - 1, m], &t, "huge-window"));
+    }
     let n = if tier == "thorough" { 120_000 } else { 6_000 };
     for _ in 0..n {
         let (mut w, m) = wm_random(rng);
